@@ -982,8 +982,11 @@ def broadcast_and_apply(  # noqa: C901
                         ),
                     ):
                         offsets = x.offsets
-                        lencontent = offsets[-1]
-                        nextinputs.append(x.content[:lencontent])
+                        if len(offsets) == 1:
+                            nextinputs.append(x.content[:0])
+                        else:
+                            lencontent = offsets[-1]
+                            nextinputs.append(x.content[:lencontent])
 
                     elif isinstance(
                         x,
